@@ -686,7 +686,9 @@ func bigAlphabet() alpha {
 	// one Before and one After year only: the documented one-directional rule between two
 	// different Before (After) dates is the known finding C07-F1 and has its own config
 	a.leaf = append(a.leaf, dateNode("Exact", 1900), dateNode("Exact", 1950), dateNode("About", 1900), dateNode("Before", 1950),
-		dateNode("After", 1900), mk("DATE", "(after the war)", "", `{"k":"phrase"}`), mk("DATE", "sometime", "", `{"k":"baddate"}`))
+		dateNode("After", 1900), mk("DATE", "(after the war)", "", `{"k":"phrase"}`), mk("DATE", "sometime", "", `{"k":"baddate"}`),
+		// values the date grammar accepts but that name no day (year zero): equal only to the same text
+		mk("DATE", "0", "", `{"k":"baddate"}`), mk("DATE", "Abt. 0", "", `{"k":"baddate"}`), mk("DATE", "Bet. 1900 and 0", "", `{"k":"baddate"}`))
 	a.leaf = append(a.leaf, mk("_UID", "EE13561DDB204985BFFDEEBF82A5226C5B2E", "", `{"k":"uid","u":1}`),
 		mk("_UID", "92FF8B766F327F48A256C3AE6DAE50D3A114", "", `{"k":"uid","u":2}`), mk("_UID", "xyz", "", `{"k":"baduid"}`))
 	a.edit = []ANode{mk("NOTE", "zz", "", `{"k":"plain"}`), mk("_NEW", "", "", `{"k":"plain"}`), mk("OCCU", "q", "Q", `{"k":"plain"}`),
